@@ -168,6 +168,8 @@ def classify(rec, cases):
     midnight instant` predicts with one of the zone's other offsets."""
     if rec.get("what") not in ("contains", "apply-global", "apply-client") or "pt" not in rec:
         return None
+    if rec.get("hist"):
+        return None      # that defect needs no earlier calls on the object
     c = cases.get(rec.get("c"))
     if not c:
         return None
@@ -363,7 +365,11 @@ def run(ctx):
     tknown, tunrepro = 0, 0
     recs, vecs = {}, []
     for i in tbad[:5000]:
-        rec, vec = trace_record(trows[i - 1], i)
+        row, hist, j = trows[i - 1], [], i - 2
+        while row["k"] == "eval" and j >= 0 and trows[j]["k"] == "eval" and trows[j]["obj"] == row["obj"]:
+            hist.insert(0, [trows[j]["s"], trows[j]["n"], trows[j]["pres"]])
+            j -= 1
+        rec, vec = trace_record(row, i, hist)
         recs[rec["c"]] = (rec, trows[i - 1])
         vecs.append(vec)
     if vecs:
@@ -411,7 +417,7 @@ def run(ctx):
         "tables": len(evecs), "table_rows": n_rows, "rows_expected_true": summ["true"],
         "rows_of_tables_refused_by_decoders": summ["unbuilt_rows"],
         "serialisation_vectors": len(sers), "serialisation_vectors_sub_ms": n_frac,
-        "representations_per_row": 5, "contains_calls": 5 * summ["evals"],
+        "representations_per_row": 5, "long_lived_objects_per_table": 2, "contains_calls": 10 * summ["evals"],
         "trace_ser_lines_with_sub_ms": sum(1 for r in trows if r["k"] == "ser" and any(x[0] or x[1] for x in r["wn"])),
         "filtering_path_evaluations": asumm["evals"], "filtering_path_blocked": asumm["blocked"],
         "trace_lines": len(trows), "trace_lines_rejected": len(tbad),
@@ -438,12 +444,13 @@ def run(ctx):
 def describe(r):
     if r.get("what", "").startswith("ser:") or r.get("what") == "build":
         return "%s: %s" % (r.get("what"), str(r.get("detail") or r.get("err"))[:200])
-    return "%s %s local %s (instant given as %s) range %s: spec %s, code %s" % (
-        r.get("what"), r.get("zone"), r.get("local"), r.get("given_as") or r.get("pres"), r.get("range"),
-        r.get("want"), r.get("got"))
+    return "%s %s local %s (instant given as %s%s) range %s: spec %s, code %s" % (
+        r.get("what"), r.get("zone"), r.get("local"), r.get("given_as") or r.get("pres"),
+        (", after %d earlier call(s) on the same Weekly" % len(r["hist"])) if r.get("hist") else "",
+        r.get("range"), r.get("want"), r.get("got"))
 
 
-def trace_record(row, i):
+def trace_record(row, i, hist=None):
     """Replay record + isolated-re-run vector for a trace line TLC rejected."""
     cid = "trace:%d" % i
     if row["k"] == "eval":
@@ -453,13 +460,16 @@ def trace_record(row, i):
                "pt": pt, "range": row["w"][row["wd"]], "want": bool(want), "got": bool(row["got"]),
                "local": "wd %d tod %d off %d" % (row["wd"], row["tod"], row["off"]), "trace_line": i}
         rec["pres"] = row["pres"]
+        rec["hist"] = hist or []      # earlier calls on the same Weekly object: [s, n, pres]
         vec = {"k": "eval", "c": cid, "zone": row["zone"], "shape": "trace", "w": row["w"], "pts": [pt],
-               "pres": row["pres"]}
+               "pres": row["pres"], "hist": rec["hist"]}
         return rec, vec
     if row["k"] == "build":
         rec = {"what": "build", "c": cid, "zone": row["zone"], "shape": "trace", "w": row["w"],
                "detail": "%s %s" % (row.get("via"), row.get("detail")), "trace_line": i}
-        vec = {"k": "eval", "c": cid, "zone": row["zone"], "shape": "trace", "w": row["w"], "pts": []}
+        rec["mode"] = row["mode"]      # decoder and receiver (fresh / populated) that were used
+        vec = {"k": "eval", "c": cid, "zone": row["zone"], "shape": "trace", "w": row["w"], "pts": [],
+               "mode": row["mode"]}
         return rec, vec
     rec = {"what": "ser:trace", "c": cid, "zone": row["zone"], "wms": row["w"], "wns": row["wn"], "ser": row["ser"],
            "detail": "json accepted=%s yaml accepted=%s round trips ok=%s %s %s (ranges in ns: %s)" % (
@@ -477,6 +487,7 @@ def replay(ctx, path):
                "w": rec["w"], "pts": [rec["pt"]]}
         if rec.get("pres") is not None and not rec.get("what", "").startswith("apply"):
             vec["pres"] = rec["pres"]      # the representation of the instant that was recorded
+            vec["hist"] = rec.get("hist") or []   # and what the same Weekly object was asked before
         rows, summ, vin = go_replay(ctx, [vec], tag="r")
         bad = [r for r in rows if r.get("kind") == "bad"]
         obs = [b.get("got") for b in bad] or "as expected"
@@ -486,7 +497,8 @@ def replay(ctx, path):
             bad += abad
             obs = {"contains": obs, "filtering": [b.get("got") for b in abad] or "as expected"}
         print(json.dumps({"input": {"zone": rec["zone"], "range": rec.get("range"), "instant": rec.get("utc"),
-                                    "local": rec.get("local"), "given_as": rec.get("given_as")},
+                                    "local": rec.get("local"), "given_as": rec.get("given_as"),
+                                    "earlier_calls_on_same_object": rec.get("hist")},
                           "expected_contains": bool(rec["pt"][5]), "observed": obs}, indent=1))
         return 1 if bad else 0
     if "verdicts" in rec:
@@ -504,8 +516,10 @@ def replay(ctx, path):
                           "observed": obs}, indent=1))
         return 1 if obs and obs[0] == rec["ser"] else 0
     if rec.get("what") == "build":
-        rows, _, _ = go_replay(ctx, [{"k": "eval", "c": "replay", "zone": rec["zone"], "shape": "replay",
-                                      "w": rec["w"], "pts": []}], tag="r")
+        vec = {"k": "eval", "c": "replay", "zone": rec["zone"], "shape": "replay", "w": rec["w"], "pts": []}
+        if rec.get("mode") is not None:
+            vec["mode"] = rec["mode"]
+        rows, _, _ = go_replay(ctx, [vec], tag="r")
         bad = [r for r in rows if r.get("kind") == "bad"]
         print(json.dumps({"schedule_seconds": rec["w"], "expected": "accepted unchanged",
                           "observed": [b.get("err") for b in bad] or "accepted unchanged"}, indent=1))
